@@ -95,8 +95,12 @@ class LocGen:
             # offset -1 models a[n-1] (solc folds it into the constant (keccak(slot)-1) + n)
             offs = [0, 0, 1, 2, -1, -1] if self.layout == "solidity" else [0, 0, 1, 2]
             return ("arr", self.slot(), self.keyref("idx"), r.choice(offs))
-        if k < 0.88:
+        if k < 0.84:
             return ("mapstruct", self.slot(), self.keyref(), r.choice([1, 2]))
+        if k < 0.92:
+            # a[i][j] of a nested dynamic array: keccak(keccak(slot) + i) + j ; small slots / indices so that it can meet a mapping cell m[k]
+            # in the decoded (generic-layout) index space: k == slot(a), slot(m) == i, j == 0
+            return ("arr2", r.randrange(0, 3), self.keyref(), self.keyref())
         # packed keys are always symbolic here: halmos decodes keccak(bytesN(key) . slot) as a mapping only when the
         # pre-image still is a concat term; a concrete key folds to a constant and is treated as an unrelated scalar
         # slot (known finding, probed separately)
@@ -203,6 +207,12 @@ class LocGen:
                     toks += p
                 toks += ["ADD"] * (len(parts) - 1)
             return toks
+        if kind == "arr2":
+            _, s, i, j = loc
+            self.features.add("shape:nested-array")
+            self.features.add("way:runtime-sha3")
+            self.hashed.add((s,))
+            return self.hash1([s]) + self.ref(i) + ["ADD", 0x00, "MSTORE", 0x20, 0x00, "SHA3"] + self.ref(j) + ["ADD"]
         if kind == "packed":
             _, s, k = loc
             self.features.add("shape:packed-key")
@@ -231,6 +241,15 @@ def make_storage_case(rng, transient=False, overrides=None):
             locs.append(("map", l0[1], l0[2]))
         elif l0[0] == "map2":
             locs.append(("map2", l0[1], g.keyref(), g.keyref()))
+        elif l0[0] == "arr2":
+            locs.append(("map", rng.choice(KEY_DOM), g.keyref()))
+            locs.append(("arr2", l0[1], g.keyref(), g.keyref()))
+    # distinct Solidity variables have distinct slots: halmos' decoder (like solc) assumes one type per slot, so a nested array never
+    # shares its base slot with a mapping / array / scalar
+    a2 = {l[1] for l in locs if l[0] == "arr2"}
+    if a2:
+        free = [x for x in range(0, 6) if x not in a2]
+        locs = [l if l[0] == "arr2" or l[1] not in a2 else (l[0], rng.choice(free)) + tuple(l[2:]) for l in locs]
     toks = []
     nout = 0
     ST, LD = ("TSTORE", "TLOAD") if transient else ("SSTORE", "SLOAD")
@@ -288,6 +307,8 @@ def concrete_slot(loc, cd):
         return H(val(loc[3]), H(val(loc[2]), loc[1]))
     if kind == "arr":
         return (H(loc[1]) + val(loc[2]) + loc[3]) & M
+    if kind == "arr2":
+        return (H((H(loc[1]) + val(loc[2])) & M) + val(loc[3])) & M
     if kind == "mapstruct":
         return (H(val(loc[2]), loc[1]) + loc[3]) & M
     if kind == "packed":
